@@ -482,7 +482,7 @@ func (vs *ValidatorStore) GetEndBlockUpdate(ctx *ValidatorContext, req types.Req
 			}
 
 			//distribute the fee for validators
-			if distribute {
+			if distribute && vs.totalPower > 0 {
 				feeShare := total.MultiplyInt64(queued.Priority()).DivideInt64(vs.totalPower)
 
 				err = ctx.FeePool.MinusFromPool(feeShare)
